@@ -839,8 +839,8 @@ func genMisc(g *hx.Gen) {
 		if r.Chance(1, 10) {
 			n = r.PickInt(65534, 65535, 65536, 65537)
 		}
-		if g.Thorough() && r.Chance(1, 400) {
-			n = 1<<24 + r.Range(-1, 1)
+		if g.Thorough() && r.Chance(1, 100000) {
+			n = 1<<24 + r.Range(-1, 1) // 16 MiB bodies: a handful per thorough run
 		}
 		body := bytes.Repeat([]byte{byte(r.Intn(256))}, n)
 		if n < 40 {
@@ -1036,7 +1036,7 @@ func genTime(g *hx.Gen) {
 }
 
 func gen(g *hx.Gen) {
-	n := g.Count(30000, 1000000)
+	n := g.Count(30000, 600000)
 	for i := 0; i < n; i++ {
 		switch g.R.Intn(20) {
 		case 0, 1, 2, 3, 4, 5:
